@@ -41,7 +41,10 @@ class FakeBuf:
             return
         self.closed = True
         if self.create:
-            self.store.data[self.key] = (bytes(self.data), self.deser_fun)
+            if self.store.defer:
+                self.store.staged[self.key] = (bytes(self.data), self.deser_fun)
+            else:
+                self.store.data[self.key] = (bytes(self.data), self.deser_fun)
         else:
             self.store.readers[self.key] = self.store.readers.get(self.key, 1) - 1
 
@@ -57,9 +60,11 @@ class HostStore:
         self.host = host
         self.data: dict[str, tuple[bytes, str]] = {}
         self.readers: dict[str, int] = {}
+        self.defer = False  # while a generator task runs, its outputs become visible one publication at a time
+        self.staged: dict[str, tuple[bytes, str]] = {}
 
     def allocate(self, key, l, deser_fun, timeout_sec=60.0):
-        if key in self.data:
+        if key in self.data or key in self.staged:
             raise ConflictError(key)
         return FakeBuf(self, key, l, deser_fun, True)
 
@@ -166,6 +171,7 @@ class SimCluster:
         self.ext = set(job.ext_outputs)
         _CALLBACK_SINK["fn"] = self._on_callback
         self._cur_host = None
+        self._staging = None
 
     # -- helpers ------------------------------------------------------------------------
     def holds(self, host, ds) -> bool:
@@ -175,7 +181,10 @@ class SimCluster:
         return any(self.holds(h, ds) for h in self.stores)
 
     def _on_callback(self, address, msg):
-        self.queues[self._cur_host].append(msg)
+        if self._staging is not None:
+            self._staging.append(msg)
+        else:
+            self.queues[self._cur_host].append(msg)
 
     def mon(self, name):
         return name in self.monitors
@@ -190,7 +199,7 @@ class SimCluster:
         if self.mon("C02"):
             if w not in self.workers:
                 raise Violation("dispatch-to-unknown-worker", repr(w))
-            if any(p[0] == "run" and p[1] == w for p in self.pending):
+            if any(p[0] in ("run", "pub") and p[1] == w for p in self.pending):
                 raise Violation("dispatch-to-busy-worker", f"{w} got {ts.tasks} while still owing a sequence")
             for t in ts.tasks:
                 if t in self.dispatched:
@@ -259,6 +268,10 @@ class SimCluster:
                 need = {ds for t in ts.tasks for ds in (self.param_source[t].values() if t in self.param_source else [])} - own
                 if all(self.holds(w.host, ds) for ds in need):
                     out.append(i)
+            elif p[0] == "pub":
+                # publications of one worker happen in order
+                if not any(q[0] == "pub" and q[1] == p[1] for q in self.pending[:i]):
+                    out.append(i)
             elif p[0] == "xfer":
                 if self.holds(p[2], p[1]):
                     out.append(i)
@@ -279,15 +292,39 @@ class SimCluster:
             with self.untraced():
                 ectx = self.contexts[w].project(ts)
                 for t in ts.tasks:
+                    multi = len(self.job.tasks[t].definition.output_schema) > 1
+                    if multi:
+                        # a generator publishes output by output while it is still running: stage them
+                        self.stores[w.host].defer = True
+                        self._staging = []
                     try:
                         run(t, ectx, self.memories[w])
                     except Violation:
                         raise
                     except Exception as e:
                         raise Violation("task-failed-in-worker", f"{t}@{w}: {type(e).__name__}: {e}")
-                    self.ran.add(t)
+                    finally:
+                        self.stores[w.host].defer = False
+                    if multi:
+                        evs, self._staging = self._staging, None
+                        for k, ev in enumerate(evs):
+                            self.pending.append(("pub", w, ev, t if k == len(evs) - 1 else None))
+                        if not evs:
+                            self.ran.add(t)
+                    else:
+                        self.ran.add(t)
                 self.memories[w].flush()
             self.trace.append(("ran", repr(w), list(ts.tasks)))
+        elif p[0] == "pub":
+            _, w, ev, last_of = p
+            key = self.ds2shmid(ev.ds)
+            store = self.stores[w.host]
+            if key in store.staged:
+                store.data[key] = store.staged.pop(key)
+            self.queues[w.host].append(ev)
+            if last_of is not None:
+                self.ran.add(last_of)  # the generator is exhausted only now
+            self.trace.append(("published", repr(w), repr(ev.ds)))
         elif p[0] == "xfer":
             _, ds, src, tgt, idx = p
             key = self.ds2shmid(ds)
